@@ -42,8 +42,9 @@ INLINE = _Inline()    # returned by a spec that does not cover this argument sha
 
 class Contract:
     def __init__(self, qualname, spec=None, post=None, shapes=(), props=(), kind='internal', note='',
-                 observe_args=True):
+                 observe_args=True, target=None):
         self.qualname = qualname
+        self.target = target or qualname      # the function of /repo this contract is about
         self.spec = spec
         self.post = post
         self.shapes = list(shapes)
@@ -203,6 +204,8 @@ class Goals:
 
 def _skolem_view_eq(a, b, label):
     """goal-position view equality: n1 == n2 and bit equality at a fresh (skolem) index"""
+    if not sym.have_ctx():
+        return extern.view_eq(a, b)       # concrete replay
     c = sym.ctx()
     k = SInt(c.fresh_int('sk'))
     # uval facts: ubit(uval(arr, n), n, k) == arr[k] instantiated at the skolem index
@@ -352,6 +355,58 @@ def same(x, y, label, goals, seen=None):
         goals.add(label, False)
 
 
+def _bits_objs(v, acc, depth=0):
+    if isinstance(v, Obj):
+        if any(k.name == 'Bits' for k in v.cls.mro):
+            if all(v is not o for o in acc):
+                acc.append(v)
+        elif v.cls.name == 'Array' and 'data' in v.attrs:
+            _bits_objs(v.attrs['data'], acc, depth + 1)
+    elif isinstance(v, (list, tuple)) and depth < 3:
+        for x in v:
+            _bits_objs(x, acc, depth + 1)
+
+
+def is_mutable_cls(cls):
+    return any(k.name == 'BitArray' for k in cls.mro)
+
+
+def alias_goals(result, args, kwargs):
+    """value isolation: two distinct bitstring objects of which at least one is mutable never share a store or a
+    buffer; a mutable object's store is not flagged immutable (i.e. possibly shared / cached); a caller-supplied or
+    returned raw buffer is never the live buffer of a bitstring"""
+    objs = []
+    _bits_objs(result, objs)
+    for a in list(args) + list(kwargs.values()):
+        _bits_objs(a, objs)
+    out = []
+    for i, a in enumerate(objs):
+        sa = a.attrs.get('_bitstore')
+        if sa is None:
+            continue
+        if is_mutable_cls(a.cls) and sa.attrs.get('immutable'):
+            out.append(('own:mutable-object-holds-a-store-flagged-immutable', False, f'{a.cls.name}'))
+        if is_mutable_cls(a.cls) and getattr(sa, 'cached', False):
+            out.append(('own:mutable-object-holds-a-cached-store', False, f'{a.cls.name}'))
+        for b in objs[i + 1:]:
+            sb = b.attrs.get('_bitstore')
+            if sb is None or not (is_mutable_cls(a.cls) or is_mutable_cls(b.cls)):
+                continue
+            if sa is sb:
+                out.append(('own:store-shared-with-a-mutable-object', False, f'{a.cls.name}/{b.cls.name}'))
+            elif sa.attrs.get('_bitarray') is sb.attrs.get('_bitarray'):
+                out.append(('own:buffer-shared-with-a-mutable-object', False, f'{a.cls.name}/{b.cls.name}'))
+    raw = [v for v in [result] + list(args) + list(kwargs.values()) if isinstance(v, BA)]
+    for r in raw:
+        for a in objs:
+            sa = a.attrs.get('_bitstore')
+            if sa is not None and sa.attrs.get('_bitarray') is r:
+                out.append(('own:raw-buffer-of-a-bitstring-exposed-or-adopted', False, a.cls.name))
+    if not out:
+        out.append(('own', True))
+    return out
+
+
 def store_wf(st):
     """representation invariant of a BitStore: modified_length is None or within the raw buffer"""
     ml = st.attrs.get('modified_length')
@@ -456,7 +511,7 @@ def check_shape(interp, c: Contract, shape: Shape, timeout_ms=20000, max_paths=4
     """-> dict(result per clause, stats).  Never raises for solver/engine trouble: those
     become 'undecided' with a reason."""
     t0 = time.time()
-    fn = interp.lookup_qualname(c.qualname)
+    fn = interp.lookup_qualname(c.target)
     set_options(interp, shape.opts)
     clauses = {}
     stats = dict(paths=0, infeasible=0, unsupported=[], bounded=0, solver_calls=0, cover=0, side_fail=[],
@@ -512,8 +567,8 @@ def _one_path(interp, c, fn, shape, ctx, clauses, stats):
     if ctx.check() == 'unsat':
         raise Infeasible()
     # ---- the real body
-    interp.under_verification = c.qualname
-    interp.contracts = {q: k for q, k in REGISTRY.items() if k.spec is not None and q != c.qualname
+    interp.under_verification = c.target
+    interp.contracts = {q: k for q, k in REGISTRY.items() if k.spec is not None and q != c.target and '@' not in q
                         and not getattr(k, 'inline', False)}
     try:
         out1 = run_callable(interp, fn, args1, kw1)
@@ -571,6 +626,10 @@ def _one_path(interp, c, fn, shape, ctx, clauses, stats):
                 goals.items.append(item)
         finally:
             interp.contracts = saved
+    # ---- ownership / aliasing (C04): concrete identity facts of this path
+    if out1.kind == 'ret':
+        for item in alias_goals(out1.value, args1, kw1):
+            goals.items.append(item)
     # ---- discharge
     stats['cover'] += 1
     for (name, r, m) in ctx.side_obligations:
